@@ -312,6 +312,30 @@ Definition warning_line (position : nat) (w : pwarn) : nat :=
 
 End Render.
 
+(* ---------- the other line-carrying methods of the mocks (arithmetic from Gen/LinesSrc.v) ---------- *)
+
+(* MockState.block_quote (epigraph / pull-quote / highlights): nested_parse(lines, line_offset, blockquote) *)
+Definition block_quote_lineno (position content_offset : Z) : Z :=
+  nested_parse_lineno_src position (block_quote_offset_src content_offset).
+
+(* text rendered through MockState.inline_text(text, lineno) -> MockInliner.parse -> nested_render_text(.., inline=True):
+   the inline token has map[0] = 0 *)
+Definition inline_text_line (lineno : Z) : Z :=
+  token_line_src (render_tokens_map0_src (nested_map0_src 0 0 (inliner_lineno_src lineno)) 0) 0.
+
+(* the attribution found on index [i] of the body lines: its node and the warnings of its text *)
+Definition attribution_node_line (position content_offset : Z) (i : Z) : Z :=
+  attribution_line_src (attribution_lineno_src position content_offset (Some i)).
+Definition attribution_text_line (position content_offset : Z) (i : Z) : Z :=
+  inline_text_line (attribution_lineno_src position content_offset (Some i)).
+
+(* a directive title: state.inline_text(title_text, self.lineno) *)
+Definition title_text_line (position : Z) : Z := inline_text_line position.
+
+(* MockStateMachine.get_source_and_line(lineno) and MockState.parse_directive_block's content offset *)
+Definition source_line (lineno : option Z) (position : Z) : Z := source_and_line_src lineno position.
+Definition directive_block_offset (line_offset body_offset : Z) : Z := directive_block_offset_src line_offset body_offset.
+
 (* MockIncludeDirective.run: the text handed to nested_render_text and its lineno *)
 Definition include_select (file_lines : list str) (start_line : option nat) (end_line : option nat) : list str :=
   let from := match start_line with Some s => s | None => O end in
